@@ -274,6 +274,8 @@ class Soap11(XmlDocument):
             else:
                 ctx.in_object = self.from_element(ctx, body_class,
                                                                 ctx.in_body_doc)
+                if ctx.in_object is None:
+                    ctx.in_object = [None] * len(body_class._type_info)
 
         self.event_manager.fire_event('after_deserialize', ctx)
 
